@@ -595,6 +595,35 @@ def main(argv):
            # LeakSanitizer off: OCCA leaks tokens on its error paths (argument-count errors); the report comes at
            # process exit and would be blamed on whatever unit happens to be the last one of the batch
            "ASAN_OPTIONS": "detect_leaks=0:abort_on_error=0:exitcode=66:allocator_may_return_null=1:detect_odr_violation=0"}
+    # what the generated units exercise (measured on the op text)
+    def count(rx):
+        return sum(1 for h in hs if re.search(rx, "\n".join(h)))
+    def depth(h):
+        d = m = 0
+        for l in h:
+            if l.startswith(("IF ", "IFDEF ", "IFNDEF ")):
+                d += 1
+                m = max(m, d)
+            elif l == "ENDIF":
+                d -= 1
+        return m
+    C = ck.cov["counters"]
+    C["units"] = len(hs)
+    C["units_with_guarded_division"] = count(r"(&&|\|\||\?)[^\n]*\( [^\n]*[/%] (0|UNDEF1|\( 2 - 2 \))")
+    C["units_with_trap_in_unevaluated_elif"] = count(r"\nELIF [^\n]*1 [/%] (0|UNDEF1)")
+    C["units_with_elif_chain"] = count(r"\nELIF [^\n]*\n(?:(?!ENDIF)[^\n]*\n)*ELIF ")
+    C["units_with_else"] = count(r"\nELSE\n")
+    C["units_nesting_depth_ge3"] = sum(1 for h in hs if depth(h) >= 3)
+    C["units_nesting_depth_4"] = sum(1 for h in hs if depth(h) >= 4)
+    C["units_with_literal_ge_2pow63"] = count(r"\b(9223372036854775808u|18446744073709551615u|0x8000000000000000|0xFFFFFFFFFFFFFFFF)")
+    C["units_with_literal_between_2pow31_and_2pow63"] = count(r"\b(2147483648|4294967295|4294967296|1099511627776|0x80000000|0xFFFFFFFF|0x100000000)\b")
+    C["units_with_variadic_call"] = count(r"\b[vw] \(")
+    C["units_with_self_reference"] = count(r"\n?[DF] (\w+) [^\n]*: [^\n]*\b\1\b")
+    C["units_with_redefinition"] = count(r"(?:^|\n)[DF] (\w+) [^\n]*\n[\s\S]*\n[DF] \1 ")
+    C["units_with_undef"] = count(r"\nU ")
+    C["units_with_nested_invocation"] = count(r"\b[fghvw] \( [^\n)]*\b[fghvw] \(")
+    C["units_with_unparenthesised_nested_ternary"] = count(r"\?[^()\n]*\?|\?[^\n]*:[^()\n]*\?")
+    C["units_with_directive_damage"] = sum(1 for h in hs if not any(l.startswith("expect ") for l in h)) - len(CORPUS)
     if os.environ.get("VERIF_C13_DUMP"):
         # development aid (mutation experiments with hand-linked harness binaries): write the histories and stop
         with open(os.environ["VERIF_C13_DUMP"], "w") as f:
